@@ -172,6 +172,20 @@ def worker_main(pid, tier, shard, nshards, seed, outfile):
                     stats.notes["regress_replays"] = stats.notes.get("regress_replays", 0) + 1
                     if fresh and found is None:
                         found = {"case": rp["case"], "viols": fresh, "phase": f"regress:{fn}", "res": res}
+        # 1b. replays of listed (open) known findings: they must still reproduce (counted as known hits, never raised)
+        known_dir = os.path.join(VERIF, "replays", "regress-known")
+        if shard == 0 and os.path.isdir(known_dir):
+            for fn in sorted(os.listdir(known_dir)):
+                if fn.startswith(pid + "-") and fn.endswith(".json"):
+                    with open(os.path.join(known_dir, fn)) as f:
+                        rp = json.load(f)
+                    before = sum(stats.known_hits.values())
+                    res, fresh = evaluate(mod, rp["case"], stats, known, keep_sample=False)
+                    stats.notes["known_finding_replays"] = stats.notes.get("known_finding_replays", 0) + 1
+                    if sum(stats.known_hits.values()) == before:
+                        stats.notes["known_finding_replays_no_longer_failing"] = stats.notes.get("known_finding_replays_no_longer_failing", 0) + 1
+                    if fresh and found is None:
+                        found = {"case": rp["case"], "viols": fresh, "phase": f"regress-known:{fn}", "res": res}
         # 2. enumerated sub-spaces
         if found is None and hasattr(mod, "enumerate_cases"):
             n = 0
